@@ -4,20 +4,25 @@ re-synchronised from /repo's *current working tree* on every run.
 Why a copy and not hooks in /repo: Kani only looks for `#[kani::proof]` items in the
 packages it is asked to verify (workspace members), and many units under test are
 private to their module (compare/logic/pow kernels, horzcat/vertcat structs, the
-loader's helper functions, `detach_variable_value`).  The copy lets us
-  * make each mech crate a member of one scratch workspace (the only edit to the
-    copied Cargo.toml files is dropping the stand-alone `[workspace]` table), and
-  * append one line  `#[cfg(kani)] include!("<gen>/<name>.rs");`  to the end of a
-    copied source file, which opens that module to a generated harness file.
-Every other byte of every source file is /repo's.  Files are only rewritten when
-their content differs, so cargo's mtime fingerprints stay valid between runs and
-an edit under /repo rebuilds exactly the crates it touches.
+loader's helper functions, `detach_variable_value`).  The scratch workspace holds
+
+  * plain copies   ws/<crate>     - dependencies, never edited beyond dropping the stand-alone
+                                    `[workspace]` table from Cargo.toml, and
+  * harness copies ws/h_<crate>   - the same sources, package renamed `<pkg>-h` (lib name kept), with one line
+                                    `#[cfg(kani)] include!("<gen>/hook__<crate>__<file>.rs");`
+                                    appended to each file listed in HOOKS.  The hook file is a dispatcher that
+                                    includes the harness file generated for the property being checked (or nothing).
+
+Every other byte of every source file is /repo's.  Files are only rewritten when their content differs, so
+cargo's mtime fingerprints stay valid between runs and an edit under /repo rebuilds exactly the crates it touches.
+Harness copies depend on the *plain* copies of their dependencies, so regenerating harnesses for one crate never
+rebuilds another.
 """
-import os, shutil, hashlib, json, sys
+import os, shutil, hashlib, json, sys, re, fcntl
 
 REPO = os.environ.get("VERIF_REPO", "/repo")
 VERIF = os.path.dirname(os.path.dirname(os.path.abspath(__file__)))
-CACHE = os.path.join(VERIF, ".cache")
+CACHE = os.environ.get("VERIF_CACHE") or os.path.join(VERIF, ".cache")
 WS = os.path.join(CACHE, "ws")
 GEN = os.path.join(CACHE, "gen")
 
@@ -25,7 +30,6 @@ GEN = os.path.join(CACHE, "gen")
 CRATES = {
     "core": "src/core",
     "interpreter": "src/interpreter",
-    "syntax": "src/syntax",
     "math": "machines/math",
     "compare": "machines/compare",
     "logic": "machines/logic",
@@ -44,7 +48,31 @@ PKG = {
     "stats": "mech-stats", "io": "mech-io", "combinatorics": "mech-combinatorics",
     "string": "mech-string",
 }
+# files of the harness copies that are opened to generated harness code
+HOOKS = {
+    "math": ["src/ops/add.rs", "src/ops/sub.rs", "src/ops/mul.rs", "src/ops/div.rs", "src/ops/modulus.rs", "src/ops/pow.rs",
+             "src/ops/negate.rs", "src/op_assign/mod.rs", "src/op_assign/add_assign.rs", "src/op_assign/sub_assign.rs",
+             "src/op_assign/mul_assign.rs", "src/op_assign/div_assign.rs"],
+    "compare": ["src/gt.rs", "src/gte.rs", "src/lt.rs", "src/lte.rs", "src/eq.rs", "src/neq.rs"],
+    "logic": ["src/and.rs", "src/or.rs", "src/xor.rs", "src/not.rs"],
+    "range": ["src/exclusive.rs", "src/inclusive.rs", "src/exclusive_increment.rs", "src/inclusive_increment.rs", "src/lib.rs"],
+    "set": ["src/lib.rs", "src/operations/union.rs", "src/operations/intersection.rs", "src/operations/difference.rs",
+            "src/operations/symmetric_difference.rs", "src/relations/subset.rs", "src/relations/proper_subset.rs",
+            "src/relations/superset.rs", "src/membership/element_of.rs"],
+    "core": ["src/lib.rs", "src/value.rs", "src/program/program.rs", "src/program/symbol_table.rs",
+             "src/program/compiler/constants.rs", "src/program/compiler/context.rs", "src/program/compiler/sections.rs",
+             "src/structures/set.rs", "src/structures/matrix.rs"],
+    "interpreter": ["src/lib.rs", "src/stdlib/access/matrix.rs", "src/stdlib/access/mod.rs", "src/stdlib/assign/matrix.rs",
+                    "src/stdlib/assign/mod.rs", "src/stdlib/horzcat.rs", "src/stdlib/vertcat.rs", "src/stdlib/convert/mod.rs",
+                    "src/stdlib/convert/scalar.rs", "src/stdlib/convert/mat_to_mat.rs", "src/stdlib/convert/scalar_to_mat.rs",
+                    "src/statements.rs", "src/literals.rs", "src/structures.rs"],
+}
+NO_PLAIN = {"interpreter"}   # nothing depends on it; only its harness copy is built
 SKIP_DIRS = {"target", ".git", "benches", "tests", "examples"}
+
+
+def hpkg(crate):
+    return PKG[crate] + "-h"
 
 
 def write_if_changed(path, data):
@@ -64,69 +92,106 @@ def write_if_changed(path, data):
     return True
 
 
-def include_line(name):
-    return '\n#[cfg(kani)] include!("%s/%s.rs");\n' % (GEN, name)
+def hook_name(crate, relp):
+    return "hook__%s__%s" % (crate, relp.replace("/", "_").replace(".rs", ""))
 
 
-def sync(includes=None, members=None, vh_files=None, extra_members=None):
-    """includes: {(crate, relpath): genname}  -> append an include! of GEN/genname.rs
-    vh_files: {relpath: text} for the external harness crate `vh`
-    returns dict with sha256 of every hooked source file (for the evidence)."""
-    includes = includes or {}
+def include_line(crate, relp):
+    return '\n#[cfg(kani)] include!("%s/%s.rs");\n' % (GEN, hook_name(crate, relp))
+
+
+def _manifest(data, rename=None):
+    txt = data.decode()
+    lines = [l for l in txt.split("\n") if l.strip() != "[workspace]"]
+    out, skip = [], False
+    for l in lines:
+        if l.strip().startswith("[[bench]]"):
+            skip = True
+            continue
+        if skip and l.strip().startswith("["):
+            skip = False
+        if not skip:
+            out.append(l)
+    txt = "\n".join(out)
+    if rename:
+        old = re.search(r'^name\s*=\s*"([^"]+)"', txt, re.M).group(1)
+        txt = re.sub(r'^name\s*=\s*"[^"]+"', 'name = "%s"' % rename, txt, count=1, flags=re.M)
+        libname = old.replace("-", "_")
+        if re.search(r"^\[lib\]", txt, re.M):
+            if not re.search(r"^\[lib\][^\[]*^name\s*=", txt, re.M | re.S):
+                txt = re.sub(r"^\[lib\]", '[lib]\nname = "%s"' % libname, txt, count=1, flags=re.M)
+        else:
+            txt += '\n[lib]\nname = "%s"\n' % libname
+    return txt.encode()
+
+
+def _copy_tree(src_root, dst_root, rename=None, hooks=None, crate=None, repo_rel=None, hooked=None):
+    changed = 0
+    seen = set()
+    for dirpath, dirnames, filenames in os.walk(src_root):
+        dirnames[:] = [d for d in dirnames if d not in SKIP_DIRS]
+        for fn in filenames:
+            sp = os.path.join(dirpath, fn)
+            relp = os.path.relpath(sp, src_root)
+            dp = os.path.join(dst_root, relp)
+            seen.add(dp)
+            with open(sp, "rb") as f:
+                data = f.read()
+            if relp == "Cargo.toml":
+                data = _manifest(data, rename)
+            if hooks and relp in hooks:
+                if hooked is not None:
+                    hooked["%s/%s" % (repo_rel, relp)] = hashlib.sha256(data).hexdigest()
+                data = data + include_line(crate, relp).encode()
+            if write_if_changed(dp, data):
+                changed += 1
+    for dirpath, dirnames, filenames in os.walk(dst_root):
+        dirnames[:] = [d for d in dirnames if d not in SKIP_DIRS]
+        for fn in filenames:
+            p = os.path.join(dirpath, fn)
+            if p not in seen and not p.endswith(".tmp~"):
+                os.remove(p)
+    return changed
+
+
+_lock_fd = None
+
+
+def lock():
+    """one check at a time: they share the scratch workspace and its target directory"""
+    global _lock_fd
+    os.makedirs(CACHE, exist_ok=True)
+    _lock_fd = open(os.path.join(CACHE, "lock"), "w")
+    fcntl.flock(_lock_fd, fcntl.LOCK_EX)
+
+
+def sync():
+    """copy /repo's current sources; returns sha256 of every hookable source file (for the evidence)."""
     os.makedirs(WS, exist_ok=True)
     os.makedirs(GEN, exist_ok=True)
     hooked = {}
     changed = 0
+    members = []
     for member, rel in CRATES.items():
-        src_root = os.path.join(REPO, rel)
-        dst_root = os.path.join(WS, member)
-        seen = set()
-        for dirpath, dirnames, filenames in os.walk(src_root):
-            dirnames[:] = [d for d in dirnames if d not in SKIP_DIRS]
-            for fn in filenames:
-                sp = os.path.join(dirpath, fn)
-                relp = os.path.relpath(sp, src_root)
-                dp = os.path.join(dst_root, relp)
-                seen.add(dp)
-                with open(sp, "rb") as f:
-                    data = f.read()
-                if relp == "Cargo.toml":
-                    txt = data.decode()
-                    txt = "\n".join(l for l in txt.split("\n") if l.strip() != "[workspace]")
-                    # benches are not copied
-                    out = []
-                    skip = False
-                    for l in txt.split("\n"):
-                        if l.strip().startswith("[[bench]]"):
-                            skip = True
-                            continue
-                        if skip and l.strip().startswith("["):
-                            skip = False
-                        if not skip:
-                            out.append(l)
-                    data = "\n".join(out).encode()
-                key = (member, relp)
-                if key in includes:
-                    hooked["%s/%s" % (rel, relp)] = hashlib.sha256(data).hexdigest()
-                    data = data + include_line(includes[key]).encode()
-                if write_if_changed(dp, data):
-                    changed += 1
-        # remove files that disappeared from /repo
-        for dirpath, dirnames, filenames in os.walk(dst_root):
-            dirnames[:] = [d for d in dirnames if d not in SKIP_DIRS]
-            for fn in filenames:
-                p = os.path.join(dirpath, fn)
-                if p not in seen and not p.endswith(".tmp~"):
-                    os.remove(p)
-    for key in includes:
-        member, relp = key
-        if not os.path.exists(os.path.join(REPO, CRATES[member], relp)):
-            raise SystemExit("INCONCLUSIVE: hooked file %s/%s no longer exists in /repo" % (CRATES[member], relp))
-    # root manifest
-    mem = list(CRATES.keys()) + ["vh"] + list(extra_members or [])
-    root = "[workspace]\nresolver = \"3\"\nmembers = [%s]\n\n[patch.crates-io]\n" % ", ".join('"%s"' % m for m in mem)
+        if member in NO_PLAIN:
+            continue
+        changed += _copy_tree(os.path.join(REPO, rel), os.path.join(WS, member))
+        members.append(member)
+    for crate, files in HOOKS.items():
+        rel = CRATES[crate]
+        for relp in files:
+            if not os.path.exists(os.path.join(REPO, rel, relp)):
+                raise SystemExit("INCONCLUSIVE: hookable file %s/%s no longer exists in /repo" % (rel, relp))
+            hp = os.path.join(GEN, hook_name(crate, relp) + ".rs")
+            if not os.path.exists(hp):
+                write_if_changed(hp, "")
+        changed += _copy_tree(os.path.join(REPO, rel), os.path.join(WS, "h_" + crate), rename=hpkg(crate),
+                              hooks=set(files), crate=crate, repo_rel=rel, hooked=hooked)
+        members.append("h_" + crate)
+    root = "[workspace]\nresolver = \"3\"\nmembers = [%s]\n\n[patch.crates-io]\n" % ", ".join('"%s"' % m for m in members)
     for member in CRATES:
-        root += '%s = { path = "%s" }\n' % (PKG[member], member)
+        if member not in NO_PLAIN:
+            root += '%s = { path = "%s" }\n' % (PKG[member], member)
     root += "\n[profile.dev]\ndebug = false\n"
     write_if_changed(os.path.join(WS, "Cargo.toml"), root)
     lock_src = os.path.join(REPO, "Cargo.lock")
@@ -135,11 +200,17 @@ def sync(includes=None, members=None, vh_files=None, extra_members=None):
         shutil.copy(lock_src, lock_dst)
     write_if_changed(os.path.join(WS, ".cargo", "config.toml"),
                      "[net]\noffline = true\n\n[env]\nRUSTC_BOOTSTRAP = \"1\"\n")
-    # external harness crate
     vh = os.path.join(WS, "vh")
-    for relp, text in (vh_files or {}).items():
-        write_if_changed(os.path.join(vh, relp), text)
+    if os.path.isdir(vh):
+        shutil.rmtree(vh)
     return {"hooked_sha256": hooked, "files_rewritten": changed}
+
+
+def set_hooks(crate, gens):
+    """gens: {relpath: text}.  Every hook of `crate` not in gens is emptied."""
+    for relp in HOOKS[crate]:
+        hp = os.path.join(GEN, hook_name(crate, relp) + ".rs")
+        write_if_changed(hp, gens.get(relp, ""))
 
 
 def repo_head():
